@@ -1,6 +1,84 @@
-(** C10 — placeholder while the pipeline is brought up. *)
-From Dawn Require Import Mvs.Model.
+(** C10 — Resolved build list is the minimal-version-selection solution.
 
-Theorem select_keeps_or_sets : forall s n, select s n = s \/ select s n = sel_set s (fst n) (snd n).
-Proof. intros; unfold select; destruct (vlt _ _); auto. Qed.
-Print Assumptions select_keeps_or_sets.
+    Vocabulary (Mvs/Spec.v, Mvs/Model.v):
+      [dawn_build_list pick fuel U root]   dawn's BuildList over the universe [U] (what the resolver can see) for the
+                                           root requirements [root] (name -> (path, version)); [pick] is the order in
+                                           which the library's work list hands out pending items (any function);
+      [reachable_from U rootreqs n]        project version [n] is the root or is required by a reachable one;
+      [unresolvable ...]                   some reachable project version cannot be resolved (no such tag, ...);
+      [mvs_solution R l]                   [l] is strictly sorted by path (every path once) and contains (p, v)
+                                           exactly when (p, v) is reachable and v is the highest version of p
+                                           that is reachable;
+      [u_fuel U rootreqs]                  number of nodes of the graph + 1: an explicit sufficient fuel, so the
+                                           OutOfFuel outcome (a hang) is excluded, not assumed away.
+    Module identity is the path including its "@vN" suffix, so several majors of one project are distinct paths. *)
+From Dawn Require Import Mvs.Spec Mvs.Proofs_C10.
+
+(** every processing order, every finite universe (cycles included), every root requirement list:
+    an error exactly when a reachable requirement cannot be resolved, otherwise exactly the MVS solution *)
+Theorem build_list_spec :
+  forall (pick : list node -> nat) (U : universe) (root : config) (fuel : nat),
+    (u_fuel U (map snd root) <= fuel)%nat ->
+    (unresolvable (u_required U (map snd root)) target -> dawn_build_list pick fuel U root = Err) /\
+    (~ unresolvable (u_required U (map snd root)) target ->
+     exists l, dawn_build_list pick fuel U root = Ok l /\ mvs_solution (reachable_from U (map snd root)) l).
+Proof. exact Proofs_C10.build_list_spec. Qed.
+Print Assumptions build_list_spec.
+
+(** one of the two always happens (decided by the run itself): no panic, no hang *)
+Theorem build_list_decides :
+  forall (pick : list node -> nat) (U : universe) (root : config) (fuel : nat),
+    (u_fuel U (map snd root) <= fuel)%nat ->
+    (dawn_build_list pick fuel U root = Err /\ unresolvable (u_required U (map snd root)) target) \/
+    (exists l, dawn_build_list pick fuel U root = Ok l /\ mvs_solution (reachable_from U (map snd root)) l
+               /\ ~ unresolvable (u_required U (map snd root)) target).
+Proof. exact Proofs_C10.build_list_decides. Qed.
+Print Assumptions build_list_decides.
+
+(** the MVS solution of a graph is unique: "the" build list *)
+Theorem mvs_solution_unique :
+  forall (R : node -> Prop) (l1 l2 : list node), mvs_solution R l1 -> mvs_solution R l2 -> l1 = l2.
+Proof. exact Proofs_C10.mvs_solution_unique. Qed.
+Print Assumptions mvs_solution_unique.
+
+(** the answer does not depend on the processing order, on the fuel, on the names, the order or the
+    multiplicity of the root requirements *)
+Theorem build_list_order_independent :
+  forall (pick1 pick2 : list node -> nat) (U : universe) (root1 root2 : config) (fuel1 fuel2 : nat),
+    same_set (map snd root1) (map snd root2) ->
+    (u_fuel U (map snd root1) <= fuel1)%nat -> (u_fuel U (map snd root2) <= fuel2)%nat ->
+    dawn_build_list pick1 fuel1 U root1 = dawn_build_list pick2 fuel2 U root2.
+Proof. exact Proofs_C10.build_list_order_independent. Qed.
+Print Assumptions build_list_order_independent.
+
+Theorem build_list_no_panic_no_hang :
+  forall (pick : list node -> nat) (U : universe) (root : config) (fuel : nat),
+    (u_fuel U (map snd root) <= fuel)%nat ->
+    dawn_build_list pick fuel U root <> Panic /\ dawn_build_list pick fuel U root <> OutOfFuel.
+Proof. exact Proofs_C10.build_list_no_panic_no_hang. Qed.
+Print Assumptions build_list_no_panic_no_hang.
+
+(** the version order behind "highest": a total order on canonical versions with "none" least and the root's
+    empty version greatest *)
+Theorem version_order_total :
+  (forall a, vle a a = true) /\
+  (forall a b c, vle a b = true -> vle b c = true -> vle a c = true) /\
+  (forall a b, vle a b = true -> vle b a = true -> a = b) /\
+  (forall a b, vle a b = true \/ vle b a = true) /\
+  (forall a, vle VNone a = true) /\ (forall a, vle a VRoot = true).
+Proof.
+  exact (conj VersionProofs.vle_refl (conj VersionProofs.vle_trans (conj VersionProofs.vle_antisym
+        (conj VersionProofs.vle_total (conj VersionProofs.vle_none VersionProofs.vle_root))))).
+Qed.
+Print Assumptions version_order_total.
+
+(** the hypotheses are satisfiable: a diamond with a cycle, two majors of one project *)
+Example c10_example :
+  let a := [97] in let b := [98] in let c := [99] in let c2 := [99; 64; 118; 50] in
+  let v x y z := VSem (mkSV x y z []) in
+  let U := mkU [] [((a, v 1 0 0), 1); ((b, v 1 0 0), 1); ((c, v 1 1 0), 1); ((c, v 1 2 0), 2); ((c2, v 2 0 0), 2)]
+               [((a, 1), mkSum [] [(c, v 1 1 0); (c2, v 2 0 0)]); ((b, 1), mkSum [] [(c, v 1 2 0)]);
+                ((c, 1), mkSum [] []); ((c, 2), mkSum [] [(a, v 1 0 0)])] [] [] [] in
+  dawn_build_list (fun _ => O) 20 U [(a, (a, v 1 0 0)); (b, (b, v 1 0 0))]
+  = Ok [([], VRoot); (a, v 1 0 0); (b, v 1 0 0); (c, v 1 2 0); (c2, v 2 0 0)].
+Proof. vm_compute. reflexivity. Qed.
